@@ -665,11 +665,18 @@ func checkC18(c any, r *Rec) error {
 		if e := noErr(); e != nil {
 			return e
 		}
-		if p.Int() == 0 {
+		ni, di := in.Int(), p.Int()
+		if in.IsFloatKind() {
+			ni = int64(in.Float())
+		}
+		if p.IsFloatKind() {
+			di = int64(p.Float())
+		}
+		if di == 0 {
 			return skipf("divisor 0 is outside the reference's domain")
 		}
 		want := "False"
-		if in.Int()%p.Int() == 0 {
+		if ni%di == 0 {
 			want = "True"
 		}
 		if out != want {
@@ -1043,6 +1050,13 @@ func genC18(t *rapid.T) *c18Case {
 	case "divisibleby":
 		cs.In = vInt(drawInt(t, -30, 60, "n"))
 		cs.Param = vInt(drawInt(t, -7, 9, "d"))
+		// floats count with their integer part (Django: int(value) % int(arg))
+		if drawInt(t, 0, 3, "fin") == 0 {
+			cs.In = vF64(float64(drawInt(t, -30, 60, "nf")) + pick(t, "frac", []float64{0.5, 0.25, 0.0}))
+		}
+		if drawInt(t, 0, 3, "fparam") == 0 {
+			cs.Param = vF64(float64(drawInt(t, 1, 9, "df")) + pick(t, "dfrac", []float64{0.5, 0.0, 0.75}))
+		}
 	case "get_digit":
 		cs.In = vInt(pick(t, "n", []int{0, 7, 10, 123, 9876543210, 55, 1000000, 42}))
 		cs.Param = vInt(drawInt(t, -2, 12, "pos"))
